@@ -151,7 +151,24 @@ const H: &str = "rpki.alpha.example";
 const H2: &str = "rpki.beta.example";
 
 /// depth 1..=3 below one TA plus (for `two`) a second TAL of depth 1; objects of every type.
-fn shape(depth: usize, two: bool, extra: bool) -> Scen {
+fn shape(depth: usize, two: bool, extra: bool) -> Scen { shape_h(depth, two, extra, false) }
+
+/// `hollow`: only the deepest CA of the alpha tree publishes payload (the CAs above it are never pushed to the
+/// report themselves, so their times reach the deadline only through `PubPoint::new_ca`).
+fn shape_h(depth: usize, two: bool, extra: bool, hollow: bool) -> Scen {
+    let mut s = shape_full(depth, two, extra);
+    if hollow {
+        let deepest = ["A", "A1", "A2"][depth - 1];
+        for ca in &mut s.spec.cas {
+            if ca.id != deepest && ca.id.starts_with('A') {
+                for v in &mut ca.versions { v.objects.retain(|o| matches!(o.kind, ObjKind::Ca { .. } | ObjKind::Gbr { .. } | ObjKind::Other { .. })); }
+            }
+        }
+    }
+    s
+}
+
+fn shape_full(depth: usize, two: bool, extra: bool) -> Scen {
     let mut s = Scen::new();
     s.add_ta("alpha", "A", 0, H, "repo", res(&["10.0.0.0/8"], &["2001:db8::/32"], &[(64496, 64510)]));
     s.add_roa("A", "a.roa", 64496, &[("10.0.0.0/16", Some(20))]);
@@ -224,14 +241,16 @@ fn gen(rng: &mut Rng, tier: &str) -> Vec<(String, Value)> {
     let cfg = RunCfg::default();
 
     // 1. every time in turn the unique minimum, on trees of depth 1..3
-    let shapes: Vec<(usize, bool, bool)> = if thorough {
-        vec![(1, false, false), (2, false, false), (2, true, true), (3, false, true), (3, true, true)]
+    let shapes: Vec<(usize, bool, bool, bool)> = if thorough {
+        vec![(1, false, false, false), (2, false, false, false), (2, true, true, false), (3, false, true, false),
+             (3, true, true, false), (2, false, false, true), (3, false, true, true)]
     } else {
-        vec![(1, false, false), (2, true, false), (3, false, true)]
+        vec![(1, false, false, false), (2, true, false, false), (3, false, true, false), (3, false, false, true)]
     };
-    for (depth, two, extra) in shapes {
-        let mut base = shape(depth, two, extra).spec;
+    for (depth, two, extra, hollow) in shapes {
+        let mut base = shape_h(depth, two, extra, hollow).spec;
         let n = spread(&mut base);
+        let depth = if hollow { format!("{}-hollow", depth) } else { depth.to_string() };
         out.push(case(&format!("spread-depth{}", depth), &base, &cfg, 1));
         for k in 0..n {
             let mut s = base.clone();
@@ -300,7 +319,7 @@ fn gen(rng: &mut Rng, tier: &str) -> Vec<(String, Value)> {
     let mft_faults = [Fault::BadSignature, Fault::Missing, Fault::Expired, Fault::Stale, Fault::Revoked];
     for _ in 0..nrand {
         let depth = rng.range(1, 3) as usize;
-        let mut s = shape(depth, rng.chance(1, 2), rng.chance(2, 3)).spec;
+        let mut s = shape_h(depth, rng.chance(1, 2), rng.chance(2, 3), rng.chance(1, 3)).spec;
         let pool: Vec<i64> = (0..6).map(|_| rng.range(2, 24 * 40) as i64 * HOUR + rng.below(3600) as i64).collect();
         for (_, t) in slots(&mut s) {
             *t = if rng.chance(1, 3) { *rng.pick(&pool) } else { rng.range(2, 24 * 60) as i64 * HOUR + rng.below(3600) as i64 };
